@@ -51,6 +51,7 @@ Proof.
     + destruct (Z.leb_spec (e_time e) t1) as [Hle|Hgt].
       * (* e runs in the first chunk *)
         destruct (exec_event cfg (set_events st rest) e) as [sa la] eqn:He.
+        destruct (has_raise la) eqn:Hra; [inversion H1|].
         destruct (run_loop cfg n t1 sa) as [[sb lb] okb] eqn:Hr.
         inversion H1; subst sb l1 okb.
         assert (Hia : inv sa) by (eapply inv_exec_event; eassumption).
@@ -67,6 +68,7 @@ Proof.
         destruct (Z.leb_spec (e_time e) t2) as [Hle2|Hgt2].
         -- rewrite chunk_rec_stop_events, exec_event_set_time in H2.
            destruct (exec_event cfg (set_events st rest) e) as [sa la] eqn:He.
+           destruct (has_raise la) eqn:Hra; [inversion H2|].
            destruct (run_loop cfg m t2 sa) as [[sb lb] okb] eqn:Hr.
            inversion H2; subst sb l2 okb.
            rewrite (run_loop_fuel_mono _ _ _ _ _ _ Hr (n + S m)%nat) by lia.
@@ -81,15 +83,15 @@ Proof.
 Qed.
 
 Lemma run_next_chunk : forall cfg st st1 l1 n2 t2 st2 l2, inv st ->
-  run_next cfg st = (st1, l1) ->
+  run_next cfg st = (st1, l1) -> has_raise l1 = false ->
   (forall e rest, pop_event (s_events st) = Some (e, rest) -> e_time e <= t2) ->
   run_loop cfg n2 t2 st1 = (st2, l2, true) ->
   run_loop cfg (S n2) t2 st = (st2, l1 ++ l2, true).
 Proof.
-  intros cfg st st1 l1 n2 t2 st2 l2 Hi H1 Hw H2. unfold run_next in H1. cbn [run_loop].
+  intros cfg st st1 l1 n2 t2 st2 l2 Hi H1 Hnr Hw H2. unfold run_next in H1. cbn [run_loop].
   destruct (pop_event (s_events st)) as [[e rest]|] eqn:Hp.
   - specialize (Hw _ _ eq_refl). destruct (Z.leb_spec (e_time e) t2); [|lia].
-    rewrite H1, H2. reflexivity.
+    rewrite H1, Hnr, H2. reflexivity.
   - inversion H1; subst st1 l1. clear H1.
     destruct n2 as [|m]; [cbn [run_loop] in H2; inversion H2|].
     cbn [run_loop] in H2.
@@ -126,7 +128,8 @@ Proof.
     destruct p as [t|d|]; cbn [run_piece piece_within] in Ep, Hp.
     + exists (fuel + n)%nat. eapply run_loop_chunk; eassumption.
     + exists (fuel + n)%nat. eapply run_loop_chunk; eassumption.
-    + destruct (run_next cfg st) as [s l0] eqn:En. inversion Ep; subst s l0.
+    + destruct (run_next cfg st) as [s l0] eqn:En. injection Ep as Hs' Hl' Hn'; subst s l0.
+      apply negb_true_iff in Hn'.
       exists (S n). eapply run_next_chunk; eassumption.
 Qed.
 
